@@ -362,3 +362,34 @@ Print Assumptions C02_fs_comp_exact.
 Print Assumptions C02_fs_comp_example_hyps.
 Print Assumptions C02_fs_comp_example_cut.
 Print Assumptions C02_fs_comp_example_ends.
+
+(* ---------- Tie A, decision logic (tools/src2v2.py -> gen/Src2.v): fail-safe readers: result arms of read_pass, mode switch of the decryptor, tag skipped by take(TAG_LENGTH) ---------- *)
+From MLA Require SrcTie2b SrcTie2Events.
+Check SrcTie2b.fs_result_arms_src.
+Theorem C02_tie_fs_result_arms_src : ltac:(let t := type of SrcTie2b.fs_result_arms_src in exact t).
+Proof. exact SrcTie2b.fs_result_arms_src. Qed.
+Print Assumptions C02_tie_fs_result_arms_src.
+Check SrcTie2b.fs_final_arms_src.
+Theorem C02_tie_fs_final_arms_src : ltac:(let t := type of SrcTie2b.fs_final_arms_src in exact t).
+Proof. exact SrcTie2b.fs_final_arms_src. Qed.
+Print Assumptions C02_tie_fs_final_arms_src.
+Check SrcTie2b.fs_reset_cache_src.
+Theorem C02_tie_fs_reset_cache_src : ltac:(let t := type of SrcTie2b.fs_reset_cache_src in exact t).
+Proof. exact SrcTie2b.fs_reset_cache_src. Qed.
+Print Assumptions C02_tie_fs_reset_cache_src.
+Check SrcTie2Events.enc_fs_read_arms.
+Theorem C02_tie_enc_fs_read_arms : ltac:(let t := type of SrcTie2Events.enc_fs_read_arms in exact t).
+Proof. exact SrcTie2Events.enc_fs_read_arms. Qed.
+Print Assumptions C02_tie_enc_fs_read_arms.
+Check SrcTie2Events.load_unauth_order.
+Theorem C02_tie_load_unauth_order : ltac:(let t := type of SrcTie2Events.load_unauth_order in exact t).
+Proof. exact SrcTie2Events.load_unauth_order. Qed.
+Print Assumptions C02_tie_load_unauth_order.
+Check SrcTie2Events.EV_fs_read_pass_shape.
+Theorem C02_tie_EV_fs_read_pass_shape : ltac:(let t := type of SrcTie2Events.EV_fs_read_pass_shape in exact t).
+Proof. exact SrcTie2Events.EV_fs_read_pass_shape. Qed.
+Print Assumptions C02_tie_EV_fs_read_pass_shape.
+Check SrcTie2Events.EV_load_in_cache_unauthenticated_shape.
+Theorem C02_tie_EV_load_in_cache_unauthenticated_shape : ltac:(let t := type of SrcTie2Events.EV_load_in_cache_unauthenticated_shape in exact t).
+Proof. exact SrcTie2Events.EV_load_in_cache_unauthenticated_shape. Qed.
+Print Assumptions C02_tie_EV_load_in_cache_unauthenticated_shape.
